@@ -31,10 +31,15 @@ RULE = ('get_cycle_stat: exhaustive label vectors over {-1,0,1,2} of length <= L
         'functions (np.mean, np.max, np.sum, len, first, last, lambda v: sum(v*v)-3*v[0]) x out in {cycles, samples}, repeated for length <= L-1 on integer '
         'observations stored as int64 and on boolean observations; random recordings up to 600 samples '
         'with contiguous or arbitrary labellings, gaps anywhere, skipped labels, observations stored as float64 (integers, dyadics, constants) or as '
-        'int64 / int32 / bool (small and wide integers, sample indices, flags), plus lambda v: sum(v)/2 (instance check only). phase_align: 1-12 cycles of 8..400 samples (2..7 in the short family), '
-        'jittered strictly increasing phase, quantity affine in phase or a smooth function of phase, npoints 2..64, cycles given as a label vector with gaps '
-        'or detected by default; interp_kind linear (model + instance) or slinear/quadratic/cubic (instance only). bin_by_phase: 2..64 bins or custom '
-        'increasing edges, phases incl. exact edge values and 2*pi, integer observations, 1-3 columns, optional positive weights. '
+        'int64 / int32 / bool (small and wide integers, sample indices, flags), plus lambda v: sum(v)/2 (instance check only); a fifth of the float cases '
+        'is the SECOND call on the same label / value array objects, refilled in place after a first call on another labelling. Entries of labels in '
+        '0..max that no sample carries are not judged. phase_align: 1-12 cycles of 8..400 samples (2..7 in the short family: outside the quantifier, '
+        'mechanism-level), jittered strictly increasing phase, quantity affine in phase or a smooth function of phase, npoints 2..64, cycles given as a '
+        'label vector with gaps or detected by default (then one column per cycle or per good cycle of the phase supplied is accepted); a third of the '
+        'default-cycles cases is the second call on the same ip / x arrays refilled in place with another recording; interp_kind linear (model + instance) '
+        'or slinear/quadratic/cubic (instance only). bin_by_phase: 2..64 bins or custom increasing edges, integer observations, 1-3 columns, optional '
+        'positive weights; in a third of the cases phases exactly on bin edges and 2*pi: bins with a sample on one of their edges are neither judged '
+        'nor compared (the property does not say which bin contains such a sample), phases 1e-7 below an edge are. All arrays handed in are writable. '
         'malformed: length mismatch, empty input, skipped labels / one-sample cycles in phase_align. '
         'A case is non-trivial when it has an unlabelled gap and at least two cycles (stat), at least two cycles of different length (align), '
         'a sample in the last bin (binning).')
@@ -123,7 +128,10 @@ BOOL_VALS = [1.0, 0.0, 1.0, 1.0, 0.0, 1.0, 0.0, 0.0]        # stored as bool
 VDTYPES = ['int64', 'int32', 'bool']                        # storage types of the observations besides float64
 
 
-def run_stat(cv, vals, fname, out, vdtype=None):
+def run_stat(cv, vals, fname, out, vdtype=None, prior=None):
+    """get_cycle_stat on WRITABLE arrays (the property speaks about values, not numpy flags). prior=(cv0, vals0) of the same
+    lengths: the call is the SECOND one on the same array objects, which held cv0 / vals0 during a first call and were refilled
+    in place (a work buffer): its result must be the statistic of what the arrays hold NOW."""
     import emd
     c = np.array(cv, dtype=int)
     v = np.array(vals, dtype=float)
@@ -132,9 +140,16 @@ def run_stat(cv, vals, fname, out, vdtype=None):
         if not np.array_equal(vd.astype(float), v):
             raise RuntimeError('harness: case values are not representable as %s' % vdtype)
         v = vd
-    c.setflags(write=False)
-    v.setflags(write=False)
     kw = {} if out == 'cycles' else {'out': 'samples'}
+    if prior is not None and len(prior[0]) == len(c) and len(prior[1]) == len(v):
+        cb, vb = np.array(prior[0], dtype=int), np.array(prior[1], dtype=float).astype(v.dtype)
+        try:
+            emd.cycles.get_cycle_stat(cb, vb, func=IMPL_FUNCS[fname], **kw)
+        except Exception:  # noqa  (the first call is not the subject)
+            pass
+        cb[:] = c
+        vb[:] = v
+        c, v = cb, vb
     return fl(emd.cycles.get_cycle_stat(c, v, func=IMPL_FUNCS[fname], **kw))
 
 
@@ -142,26 +157,36 @@ def stat_op(cv, vals, fname, out):
     return proto.op('CSTAT', {'f': fname, 'out': out}, [vals, cv])
 
 
+ABSENT = 'no-samples'
+
+
+def absent_labels(cv):
+    K = (max(cv) + 1) if cv else 0
+    have = set(cv)
+    return [k for k in range(K) if k not in have]
+
+
 def check_stat(cv, vals, fname, out, res):
-    """C14's own words: entry k = f(exactly the samples labelled k); projection constant on cycles, NaN elsewhere."""
+    """C14's own words: entry k = f(exactly the samples labelled k); projection constant on cycles, NaN elsewhere.
+    A label in 0..max that NO sample carries is not a cycle of the labelling: the property makes no demand on its entry (the code
+    evaluates f on an empty selection: NaN for mean, 0 for sum / len, an exception from max / v[0]; reporting NaN, skipping it or
+    rejecting the labelling are all "f applied to precisely the samples carrying that label") - not judged (review C)."""
     fv = [proto.fr(v) for v in vals]
     K = (max(cv) + 1) if cv else 0
-    expected = []
-    try:
-        for k in range(K):
-            expected.append(oracle_reduce(fname, [v for v, l in zip(fv, cv) if l == k]))
-    except _Raises as e:
-        if isinstance(res, dict) and res.get('error') == str(e):
-            return []
-        return [Failure('stat:expected-raise:%s' % e, 'cv=%s f=%s got %s' % (cv[:40], fname, str(res)[:80]))]
+    absent = set(absent_labels(cv))
     if isinstance(res, dict):
-        return [Failure('stat:raises:%s' % res['error'], 'cv=%s f=%s out=%s' % (cv[:40], fname, out))]
-    sc = scale_of(vals, [float(e) for e in expected if e is not None]) * max(1, len(cv))
+        if absent:
+            return []
+        return [Failure('stat:raises:%s' % res['error'], 'cv=%s f=%s out=%s' % (cv[:40], fname, out), literal=res['error'] != 'Timeout')]
+    expected = [ABSENT if k in absent else oracle_reduce(fname, [v for v, l in zip(fv, cv) if l == k]) for k in range(K)]
+    sc = scale_of(vals, [float(e) for e in expected if e is not None and e != ABSENT]) * max(1, len(cv))
     if out == 'cycles':
         if len(res) != K:
+            if absent and len(res) == K - len(absent):
+                return []            # one entry per label that occurs: a reading the property allows; entries cannot be matched up here
             return [Failure('stat:wrong-length', '%d entries for %d cycles' % (len(res), K))]
         for k in range(K):
-            if not close(res[k], expected[k], sc):
+            if expected[k] != ABSENT and not close(res[k], expected[k], sc):
                 return [Failure('stat:wrong-value', 'cv=%s vals=%s f=%s cycle %d: got %r expected %s'
                                 % (cv[:40], vals[:40], fname, k, res[k], expected[k]))]
         return []
@@ -175,6 +200,16 @@ def check_stat(cv, vals, fname, out, res):
             return [Failure(kind, 'cv=%s vals=%s f=%s sample %d (cycle %d): got %r expected %s'
                             % (cv[:40], vals[:40], fname, i, l, res[i], expected[l]))]
     return []
+
+
+def guarded(holds):
+    """an exception inside the instance check itself is a harness fault, not a property failure"""
+    def wrapper(self, case, out):
+        try:
+            return holds(self, case, out)
+        except Exception as e:  # noqa
+            return [Failure('instance-check-crashed', repr(e), literal=False)]
+    return wrapper
 
 
 class StatExhaustive(Stream):
@@ -218,13 +253,15 @@ class StatExhaustive(Stream):
             return 'implementation raised %s' % out['error']
         for (cv, vals, f, om), o, r in zip(self._items(case), out, results):
             d = compare_stat(cv, vals, f, om, o, r)
-            if d:
+            if d and not d.startswith('skip:'):
                 return 'cv=%s f=%s out=%s: %s' % (cv, f, om, d)
         return None
 
+    @guarded
     def holds(self, case, out):
         if isinstance(out, ImplError):
-            return [Failure('raises:' + out['error'], out['msg'])]
+            # the whole block failed (time-out / harness fault): reported by compare, not a C14 verdict
+            return [Failure('raises:' + out['error'], out['msg'], literal=False)]
         fs = {}
         for (cv, vals, f, om), o in zip(self._items(case), out):
             for x in check_stat(cv, vals, f, om, o):
@@ -239,14 +276,27 @@ class StatExhaustive(Stream):
 
 
 def compare_stat(cv, vals, f, om, o, r):
+    absent = set(absent_labels(cv))
     if isinstance(o, dict):
-        if r.status == 'err' and r.words and r.words[0] == o['error']:
+        if r.status == 'err' and r.words and (r.words[0] == o['error'] or absent):
             return None
+        if absent:
+            return 'skip:label-without-samples'        # which of "NaN / 0 / an exception" such a label yields is nobody's promise
         return 'implementation raised %s, model: %s' % (o['error'], r.raw[:80])
     if not r.ok:
+        if absent:
+            return 'skip:label-without-samples'
         return 'model answered %s, implementation returned %s' % (r.raw[:60], str(o)[:80])
     sc = scale_of(vals) * max(1, len(vals)) * (scale_of(vals) if f == 'lambda' else 1)
-    return vec_diff(o, r.vecs[0] if r.vecs else [], sc, 'stat')
+    mv = list(r.vecs[0]) if r.vecs else []
+    if absent and len(mv) == len(o):
+        # entries of labels no sample carries are not compared
+        if om == 'cycles':
+            keep = [k for k in range(len(o)) if k not in absent]
+            return vec_diff([o[k] for k in keep], [mv[k] for k in keep], sc, 'stat (labels with samples)')
+    elif absent:
+        return 'skip:label-without-samples'
+    return vec_diff(o, mv, sc, 'stat')
 
 
 def gen_labels(rng, n, mode):
@@ -299,6 +349,12 @@ class StatRandom(Stream):
             {'cv': [0, -1, 2, 2], 'vals': [0.0, 1.0, 2.0, 3.0], 'f': 'mean', 'out': 'cycles', 'vdtype': 'int64'},   # skipped label -> NaN
             {'cv': [0, 0, 0, 1, 1, -1], 'vals': [1.0, 2.0, 4.0, 3.0, 4.0, 0.0], 'f': 'halfsum', 'out': 'cycles', 'vdtype': 'int64'},
             {'cv': [0, 0, 0, 1, 1, -1], 'vals': [1.5, 2.0, 4.0, 3.0, 4.25, 0.0], 'f': 'halfsum', 'out': 'samples'},
+            # a work buffer: first call on another labelling, arrays refilled in place, second call (a result memoised on the identity
+            # of the label / value array would be stale)
+            {'cv': [0, 0, -1, 1, 1, 1], 'vals': [1.0, 2.0, 9.0, 3.0, 3.5, 4.0], 'f': 'mean', 'out': 'cycles',
+             'prior': {'cv': [0, 1, 1, 2, 2, -1], 'shift': 3}},
+            {'cv': [0, 0, -1, 1, 1, 1], 'vals': [1.0, 2.0, 9.0, 3.0, 3.5, 4.0], 'f': 'last', 'out': 'samples',
+             'prior': {'cv': [-1, 0, 0, 0, 1, 1], 'shift': 1}},
         ]
 
     def generate(self, rng, tier):
@@ -312,7 +368,12 @@ class StatRandom(Stream):
                 vals = [rng.randint(-4000, 4000) / 64.0 for _ in cv]
             else:
                 vals = [1.0] * len(cv)
-            yield {'cv': cv, 'vals': vals, 'f': rng.choice(FUNCS), 'out': rng.choice(['cycles', 'samples'])}
+            case = {'cv': cv, 'vals': vals, 'f': rng.choice(FUNCS), 'out': rng.choice(['cycles', 'samples'])}
+            if rng.random() < 0.2:
+                # second call on the same array objects, refilled in place after a first call on another labelling of that length
+                case['prior'] = {'cv': gen_labels(rng, len(cv), 'contiguous')[:len(cv)], 'shift': rng.randint(1, 9)}
+                case['prior']['cv'] += [-1] * (len(cv) - len(case['prior']['cv']))
+            yield case
         # observations stored as int64 / int32 / bool (counts, sample indices, flags)
         for _ in range(1200 if tier == 'thorough' else 160):
             n = rng.choice([2, 3, 7, 20, 60, 200, 600])
@@ -329,7 +390,10 @@ class StatRandom(Stream):
                    'out': rng.choice(['cycles', 'samples']), 'vdtype': vd}
 
     def impl(self, case):
-        return run_stat(case['cv'], case['vals'], case['f'], case['out'], case.get('vdtype'))
+        prior = None
+        if case.get('prior'):
+            prior = (case['prior']['cv'], [v + case['prior']['shift'] for v in case['vals']])
+        return run_stat(case['cv'], case['vals'], case['f'], case['out'], case.get('vdtype'), prior=prior)
 
     def ops(self, case, out):
         if case['f'] in INSTANCE_ONLY_FUNCS:
@@ -342,6 +406,7 @@ class StatRandom(Stream):
         o = {'error': out['error']} if isinstance(out, ImplError) else out
         return compare_stat(case['cv'], case['vals'], case['f'], case['out'], o, results[0])
 
+    @guarded
     def holds(self, case, out):
         o = {'error': out['error']} if isinstance(out, ImplError) else out
         return check_stat(case['cv'], case['vals'], case['f'], case['out'], o)
@@ -349,6 +414,10 @@ class StatRandom(Stream):
     def tags(self, case, out):
         cv = case['cv']
         t = ['f=' + case['f'], 'out=' + case['out'], 'values=' + case.get('vdtype', 'float64')]
+        if case.get('prior'):
+            t.append('second-call-on-refilled-arrays')
+        if absent_labels(cv):
+            t.append('not-judged:entries-of-labels-without-samples')
         if -1 in cv:
             t.append('has-gap')
         K = max(cv) + 1
@@ -367,10 +436,17 @@ class StatRandom(Stream):
     def shrink(self, case):
         cv, vals = case['cv'], case['vals']
         n = len(cv)
+        def sl(a, b):
+            c = dict(case, cv=cv[a:b], vals=vals[a:b])
+            if case.get('prior'):
+                c['prior'] = dict(case['prior'], cv=case['prior']['cv'][a:b])
+            return c
+        if case.get('prior'):
+            yield {k: v for k, v in case.items() if k != 'prior'}
         for cut in (n // 2, n // 4, 1):
             if 0 < cut < n:
-                yield dict(case, cv=cv[cut:], vals=vals[cut:])
-                yield dict(case, cv=cv[:n - cut], vals=vals[:n - cut])
+                yield sl(cut, n)
+                yield sl(0, n - cut)
         if any(v != round(v) for v in vals):
             yield dict(case, vals=[float(round(v)) for v in vals])
         if case.get('vdtype') != 'bool' and any(abs(v) > 9 for v in vals):
@@ -417,20 +493,50 @@ def quantity(case, ip):
     return [g(p) for p in ip]
 
 
-def run_align(ip, x, cv, npoints, kind='linear'):
+def run_align(ip, x, cv, npoints, kind='linear', prior=None):
+    """phase_align on WRITABLE arrays. prior=(ip0, x0, cv0) of the same length: the call is the SECOND one on the same array
+    objects, which held ip0 / x0 (/ cv0) during a first call and were refilled in place with ip / x (/ cv) - a work buffer
+    filled with the next channel (round 3, C14 patch 2: default cycle detection memoised on the identity of `ip`)."""
     import emd
     a = np.array(ip, dtype=float)
     b = np.array(x, dtype=float)
-    a.setflags(write=False)
-    b.setflags(write=False)
-    if cv is None:
-        used = np.asarray(emd.cycles.get_cycle_vector(a, return_good=False)).reshape(-1)
-        pa, bins = emd.cycles.phase_align(a, b, npoints=npoints, interp_kind=kind)
+    c = None if cv is None else np.array(cv, dtype=int)
+    if prior is not None and len(prior[0]) == len(a):
+        a0, b0 = np.array(prior[0], dtype=float), np.array(prior[1], dtype=float)
+        c0 = None if cv is None else np.array(prior[2], dtype=int)
+        try:
+            if c0 is None:
+                emd.cycles.phase_align(a0, b0, npoints=npoints, interp_kind=kind)
+            else:
+                emd.cycles.phase_align(a0, b0, cycles=c0, npoints=npoints, interp_kind=kind)
+        except Exception:  # noqa  (the first call is not the subject)
+            pass
+        a0[:] = a
+        b0[:] = b
+        a, b = a0, b0
+        if c0 is not None:
+            c0[:] = c
+            c = c0
+    # the cycles of the phase, detected on a separate copy (never on the array object handed to phase_align)
+    allcv = np.asarray(emd.cycles.get_cycle_vector(np.array(ip, dtype=float), return_good=False)).reshape(-1)
+    goodcv = np.asarray(emd.cycles.get_cycle_vector(np.array(ip, dtype=float), return_good=True)).reshape(-1)
+    if c is None:
+        used = allcv
+        res = emd.cycles.phase_align(a, b, npoints=npoints, interp_kind=kind)
     else:
         used = np.array(cv, dtype=int)
-        pa, bins = emd.cycles.phase_align(a, b, cycles=used, npoints=npoints, interp_kind=kind)
+        res = emd.cycles.phase_align(a, b, cycles=c, npoints=npoints, interp_kind=kind)
+    # (aligned, phase grid); the docstring's Returns section names the aligned array only: a bare array is read with the grid of bin centres
+    if isinstance(res, tuple) and len(res) == 2:
+        pa, bins = res
+    else:
+        pa, bins = res, emd.spectra.define_hist_bins(0, 2 * np.pi, npoints)[1]
     pa = np.asarray(pa, dtype=float)
+    if pa.ndim == 1:
+        pa = pa[:, None]
+    modified = bool(not np.array_equal(a, np.array(ip, dtype=float)) or not np.array_equal(b, np.array(x, dtype=float), equal_nan=True))
     return {'cv': [int(v) for v in used], 'bins': [float(v) for v in bins], 'shape': list(pa.shape),
+            'ngood': int(goodcv.max()) + 1 if goodcv.size else 0, 'modified': modified,
             'cols': [fl(pa[:, k]) for k in range(pa.shape[1])]}
 
 
@@ -466,6 +572,13 @@ class Align(Stream):
              'quantity': {'kind': 'affine', 'a': 1.0, 'b': 0.0}},
             {'lengths': [40, 80], 'seed': 4, 'gaps': False, 'cycles': 'default', 'npoints': 64,
              'quantity': {'kind': 'smooth', 'name': 'sin'}},
+            # round 3, C14 patch 2: second call on the same (refilled) phase / observation arrays, cycles detected by default / given
+            {'lengths': [9, 14, 5, 30, 12], 'seed': 5, 'gaps': False, 'cycles': 'default', 'npoints': 4, 'prior': 11,
+             'quantity': {'kind': 'affine', 'a': 3.0, 'b': 1.0}},
+            {'lengths': [20, 25, 15], 'seed': 6, 'gaps': False, 'cycles': 'default', 'npoints': 8, 'prior': 12,
+             'quantity': {'kind': 'smooth', 'name': 'sin'}},
+            {'lengths': [9, 14, 5, 30, 12], 'seed': 7, 'gaps': True, 'cycles': 'vector', 'npoints': 4, 'prior': 13,
+             'quantity': {'kind': 'affine', 'a': -2.0, 'b': 0.5}},
         ]
 
     def generate(self, rng, tier):
@@ -484,9 +597,12 @@ class Align(Stream):
             else:
                 q = {'kind': 'smooth', 'name': rng.choice(sorted(SMOOTH))}
             kind = 'linear' if (fam == 'short' or rng.random() < 0.6) else rng.choice(['slinear', 'quadratic', 'cubic'])
-            yield {'lengths': lengths, 'seed': rng.getrandbits(32), 'gaps': cycles == 'vector' and rng.random() < 0.6,
-                   'cycles': cycles, 'npoints': rng.choice([2, 3, 4, 8, 24, 48, 64]) if rng.random() < 0.7 else rng.randint(2, 64),
-                   'quantity': q, 'kind': kind}
+            case = {'lengths': lengths, 'seed': rng.getrandbits(32), 'gaps': cycles == 'vector' and rng.random() < 0.6,
+                    'cycles': cycles, 'npoints': rng.choice([2, 3, 4, 8, 24, 48, 64]) if rng.random() < 0.7 else rng.randint(2, 64),
+                    'quantity': q, 'kind': kind}
+            if fam != 'short' and rng.random() < (0.35 if cycles == 'default' else 0.15):
+                case['prior'] = rng.getrandbits(32)     # seed of the phase the arrays held during a first call
+            yield case
 
     def _data(self, case):
         import random
@@ -494,9 +610,26 @@ class Align(Stream):
         ip, cv = build_phase(r, case['lengths'], case['gaps'])
         return ip, quantity(case, ip), cv
 
+    def _prior(self, case, n):
+        """another recording of the same length n (a different division into cycles): what the arrays held during the first call"""
+        import random
+        if case.get('prior') is None:
+            return None
+        r = random.Random(case['prior'])
+        lengths, left = [], n
+        while left > 0:
+            k = min(left, r.randint(8, 60))
+            if 0 < left - k < 2:
+                k = left
+            lengths.append(k)
+            left -= k
+        ip0, cv0 = build_phase(r, lengths, False)
+        return ip0[:n], quantity(case, ip0[:n]), cv0[:n]
+
     def impl(self, case):
         ip, x, cv = self._data(case)
-        return run_align(ip, x, None if case['cycles'] == 'default' else cv, case['npoints'], case.get('kind', 'linear'))
+        return run_align(ip, x, None if case['cycles'] == 'default' else cv, case['npoints'], case.get('kind', 'linear'),
+                         prior=self._prior(case, len(ip)))
 
     def ops(self, case, out):
         if isinstance(out, ImplError) or case.get('kind', 'linear') != 'linear':
@@ -526,29 +659,60 @@ class Align(Stream):
                     return 'assumption interp1d-linear-extrapolate broken: cycle %d point %d scipy=%r reference=%r' % (k, j, u, w)
         return None
 
+    @guarded
     def holds(self, case, out):
+        short = min(case['lengths']) < 8           # outside "cycle lengths 8..400": mechanism-level verdicts only
         if isinstance(out, ImplError):
-            return [Failure('align:raises:' + out['error'], out['msg'])]
+            return [Failure('align:raises:' + out['error'], out['msg'], literal=not short and out['error'] != 'Timeout')]
         ip, x, cv = self._data(case)
+        how = ' [second call on the same arrays, refilled in place after a first call on another phase]' if case.get('prior') is not None else ''
         used = out['cv']
         K = max(used) + 1 if used else 0
-        if out['shape'] != [case['npoints'], K]:
-            return [Failure('align:wrong-shape', '%s for %d points x %d cycles' % (out['shape'], case['npoints'], K))]
-        if case['cycles'] == 'vector' and used != cv:
-            return [Failure('align:cycles-argument-ignored', '')]
-        bins = out['bins']
+        default = case['cycles'] == 'default'
         npts = case['npoints']
-        if len(bins) != npts or any(abs(t - (j + 0.5) * TWO_PI / npts) > 1e-12 for j, t in enumerate(bins)):
-            return [Failure('align:phase-grid-not-bin-centres', 'npoints=%d grid=%s' % (npts, bins[:6]))]
-        q = case['quantity']
+        ncols = out['shape'][1] if len(out['shape']) == 2 else -1
+        if len(out['shape']) != 2 or out['shape'][0] != npts:
+            return [Failure('align:wrong-shape', '%s for %d points x %d cycles%s' % (out['shape'], npts, K, how), literal=not short)]
+        if not default and ncols != K:
+            return [Failure('align:wrong-shape', '%s for %d points x %d cycles%s' % (out['shape'], npts, K, how), literal=not short)]
+        if default and ncols not in (K, out.get('ngood', K)):
+            # "for every cycle": which cycles a call WITHOUT a cycles argument aligns is not spelled out (the code: all of them);
+            # one column per cycle or per good cycle of the phase SUPPLIED are both readings, any other number is neither
+            return [Failure('align:default-cycles-not-those-of-the-phase',
+                            'the phase holds %d cycles (%d good ones), %d columns returned%s' % (K, out.get('ngood', K), ncols, how),
+                            literal=not short)]
         fs = []
+        if out.get('modified'):
+            fs.append(Failure('align:input-modified', 'ip / x no longer hold their values after the call', literal=False))
+        bins = out['bins']
+        if len(bins) != npts or any(abs(t - (j + 0.5) * TWO_PI / npts) > 1e-12 for j, t in enumerate(bins)):
+            # the property says "the phase grid": WHICH grid is the mechanism (bin centres of define_hist_bins(0, 2pi, npoints))
+            fs.append(Failure('align:phase-grid-not-bin-centres', 'npoints=%d grid=%s' % (npts, bins[:6]), literal=False))
+        if len(bins) != npts:
+            return fs
+        q = case['quantity']
+        # per-cycle sample sets: known when the labels were given (or the default produced one column per cycle)
+        per_cycle = (not default) or ncols == K
+        cyc = []
         for k in range(K):
-            idx = [i for i in range(len(used)) if used[i] == k]
-            ph = [ip[i] for i in idx]
-            if len(ph) < 2 or any(b <= a for a, b in zip(ph, ph[1:])):
-                continue                          # the property speaks of monotone phase with >= 2 samples
+            ph = [ip[i] for i in range(len(used)) if used[i] == k]
+            ok = len(ph) >= 2 and all(b > a for a, b in zip(ph, ph[1:]))      # the property speaks of monotone phase with >= 2 samples
+            cyc.append((ph, ok))
+        if not per_cycle and not all(ok for _, ok in cyc):
+            return fs
+        good = [ph for ph, ok in cyc if ok]
+        for k in range(ncols):
+            if per_cycle:
+                ph, ok = cyc[k]
+                if not ok:
+                    continue
+                hmax = max(b - a for a, b in zip(ph, ph[1:]))
+                lo, hi = ph[0], ph[-1]
+            else:
+                # a column of SOME cycle of the phase: the loosest bound over the cycles
+                hmax = max(max(b - a for a, b in zip(ph, ph[1:])) for ph in good)
+                lo, hi = max(ph[0] for ph in good), min(ph[-1] for ph in good)
             col = out['cols'][k]
-            hmax = max(b - a for a, b in zip(ph, ph[1:]))
             for j, t in enumerate(bins):
                 if q['kind'] == 'affine':
                     want = q['a'] * t + q['b']
@@ -556,15 +720,13 @@ class Align(Stream):
                 else:
                     g, m2 = SMOOTH[q['name']]
                     want = g(t)
-                    e = max(0.0, ph[0] - t, t - ph[-1])
+                    e = max(0.0, lo - t, t - hi)
                     tol = m2 * (hmax + e) ** 2 + 1e-9
                 if col[j] is None or abs(col[j] - want) > tol:
                     kind = 'align:affine-not-exact' if q['kind'] == 'affine' else 'align:not-the-function-of-phase'
-                    fs.append(Failure(kind, 'cycle %d (%d samples) bin %d (phase %.4f): got %r expected %.6g tol %.3g'
-                                      % (k, len(ph), j, t, col[j], want, tol)))
-                    break
-            if fs:
-                break
+                    fs.append(Failure(kind, 'cycle %d bin %d (phase %.4f): got %r expected %.6g tol %.3g%s'
+                                      % (k, j, t, col[j], want, tol, how), literal=not short))
+                    return fs
         return fs
 
     def tags(self, case, out):
@@ -574,6 +736,10 @@ class Align(Stream):
         t.append('len<8' if min(L) < 8 else 'len>=150' if max(L) >= 150 else 'len 8-149')
         if case['gaps']:
             t.append('gaps')
+        if case.get('prior') is not None:
+            t.append('second-call-on-refilled-arrays')
+        if min(L) < 8:
+            t.append('outside-domain:cycle-shorter-than-8-samples')
         return t
 
     def nontrivial(self, case, out):
@@ -590,32 +756,49 @@ class Align(Stream):
             yield dict(case, npoints=max(2, case['npoints'] // 2))
         if case['gaps']:
             yield dict(case, gaps=False)
+        if case['quantity']['kind'] != 'affine':
+            yield dict(case, quantity={'kind': 'affine', 'a': 1.0, 'b': 0.0})
 
 
 # ----------------------------------------------------------------------------- bin_by_phase
 
 def run_bin(ip, x, nbins, edges, weights=None):
     import emd
-    a = np.array(ip, dtype=float)
+    a = np.array(ip, dtype=float)          # writable arrays: the property speaks about values, not numpy flags
     b = np.array(x, dtype=float)
-    a.setflags(write=False)
-    b.setflags(write=False)
     kw = {}
     if weights is not None:
         kw['weights'] = np.array(weights, dtype=float)
-        kw['weights'].setflags(write=False)
     if edges is None:
         avg, var, centres = emd.cycles.bin_by_phase(a, b, nbins=nbins, **kw)
         e, _ = emd.spectra.define_hist_bins(0, 2 * np.pi, nbins)
     else:
         e = np.array(edges, dtype=float)
-        avg, var, centres = emd.cycles.bin_by_phase(a, b, bin_edges=e, **kw)
+        avg, var, centres = emd.cycles.bin_by_phase(a, b, bin_edges=e.copy(), **kw)
     avg, var = np.asarray(avg, dtype=float), np.asarray(var, dtype=float)
     if avg.ndim == 1:
         avg, var = avg[:, None], var[:, None]
     return {'edges': [float(v) for v in e], 'centres': [float(v) for v in centres],
-            'digitize': [int(v) for v in np.digitize(a, e)],
+            'digitize': [int(v) for v in np.digitize(np.array(ip, dtype=float), e)],
             'avg': [fl(avg[:, c]) for c in range(avg.shape[1])], 'var': [fl(var[:, c]) for c in range(var.shape[1])]}
+
+
+def on_edge(p, e):
+    """is phase p (within rounding) ON bin edge e? C14 says "fills every phase bin that contains samples with their mean": which of
+    the two neighbouring bins CONTAINS a sample lying exactly on their common edge (np.digitize: the upper one; np.histogram /
+    binned_statistic: the upper one except at the last edge), and whether a phase of exactly 2pi - outside wrapped phase [0, 2pi) -
+    belongs to the last bin, is not said and not documented by bin_by_phase. Bins touched by such a sample are not judged."""
+    return abs(p - e) <= 1e-9 * max(1.0, abs(e))
+
+
+def touched_bins(ip, e):
+    """indices of the bins that have a sample on one of their two edges"""
+    t = set()
+    for p in ip:
+        for i, v in enumerate(e):
+            if on_edge(p, v):
+                t.update((i - 1, i))
+    return t
 
 
 class Binning(Stream):
@@ -645,12 +828,16 @@ class Binning(Stream):
                     nbins = len(cuts) - 1
             grid = list(np.linspace(0, TWO_PI, nbins + 1)) if edges is None else edges
             ip = []
+            # edge-valued phases (compared with the model's digitize rule, not judged by the instance check) in a third of the cases
+            p_edge, p_2pi = rng.choice([(0.0, 0.0), (0.0, 0.0), (0.03, 0.01), (0.15, 0.05)])
             for _ in range(n):
                 u = rng.random()
-                if u < 0.15:
+                if u < p_edge:
                     ip.append(float(rng.choice(grid)))               # exactly on an edge
-                elif u < 0.2:
+                elif u < p_edge + p_2pi:
                     ip.append(TWO_PI)
+                elif u < p_edge + p_2pi + 0.1:
+                    ip.append(float(rng.choice(grid[1:])) - 1e-7)                  # just below an edge: decided under every reading
                 else:
                     ip.append(rng.uniform(0, TWO_PI))
             ncol = rng.choice([1, 1, 1, 2])
@@ -681,25 +868,32 @@ class Binning(Stream):
         for p, d in zip(case['ip'], out['digitize']):
             if d != sum(1 for e in out['edges'] if e <= p):
                 return 'assumption digitize-counts-edges broken at phase %r: numpy %d' % (p, d)
+        # bins with a sample exactly on one of their edges: the owner of that sample is nobody's promise - not compared
+        open_bins = touched_bins(case['ip'], out['edges'])
+        keep = [b for b in range(len(out['edges']) - 1) if b not in open_bins]
+        sel = lambda v: [v[b] for b in keep] if len(v) == len(out['edges']) - 1 else v      # noqa: E731
         for c, (col, r) in enumerate(zip(case['x'], results)):
             if not r.ok:
                 return 'model answered %s' % r.raw[:80]
             sc = scale_of(col)
-            d = vec_diff(out['avg'][c], r.vecs[0], sc, 'avg column %d' % c)
+            d = vec_diff(sel(out['avg'][c]), sel(r.vecs[0]), sc, 'avg column %d (bins %s)' % (c, keep[:12]))
             if case.get('weights') is None:      # the weighted variance is not part of the property (see report)
-                d = d or vec_diff(out['var'][c], r.vecs[1], sc * sc, 'var column %d' % c)
+                d = d or vec_diff(sel(out['var'][c]), sel(r.vecs[1]), sc * sc, 'var column %d (bins %s)' % (c, keep[:12]))
             if d:
                 return d
         return None
 
+    @guarded
     def holds(self, case, out):
         if isinstance(out, ImplError):
-            return [Failure('bin:raises:' + out['error'], out['msg'])]
+            return [Failure('bin:raises:' + out['error'], out['msg'], literal=out['error'] != 'Timeout')]
         e = out['edges']
         nb = len(e) - 1
         fs = {}
         if len(out['centres']) != nb or any(abs(c - (e[b] + e[b + 1]) / 2) > 1e-12 * max(1, abs(e[-1])) for b, c in enumerate(out['centres'])):
-            fs['bin:centres'] = Failure('bin:centres-not-midpoints', '')
+            # the third return value: the property speaks of the bin means only
+            fs['bin:centres'] = Failure('bin:centres-not-midpoints', '', literal=False)
+        open_bins = touched_bins(case['ip'], e)
         for c, col in enumerate(case['x']):
             avg = out['avg'][c]
             if len(avg) != nb:
@@ -707,14 +901,22 @@ class Binning(Stream):
                 continue
             for b in range(nb):
                 w = case.get('weights') or [1.0] * len(col)
-                members = [(v, wi) for p, v, wi in zip(case['ip'], col, w) if e[b] <= p < e[b + 1]]
+                # the samples bin b contains under EVERY reading: strictly between its edges
+                members = [(v, wi) for p, v, wi in zip(case['ip'], col, w)
+                           if e[b] < p < e[b + 1] and not on_edge(p, e[b]) and not on_edge(p, e[b + 1])]
                 if not members:
                     continue
+                if avg[b] is None:
+                    kind = 'bin:last-bin-not-filled' if b == nb - 1 else 'bin:bin-with-samples-is-empty'
+                    fs.setdefault(kind, Failure(kind, 'bin %d of %d (%.4f, %.4f) holds %d samples, got %r'
+                                                % (b, nb, e[b], e[b + 1], len(members), avg[b])))
+                    continue
+                if b in open_bins:
+                    continue            # a sample on one of its edges may or may not be averaged in: value not judged
                 want = sum(v * wi for v, wi in members) / sum(wi for v, wi in members)
-                if avg[b] is None or abs(avg[b] - want) > 1e-9 * max(1.0, max(abs(v) for v in col)):
-                    kind = ('bin:last-bin-not-filled' if (b == nb - 1 and avg[b] is None) else
-                            'bin:bin-with-samples-is-empty' if avg[b] is None else 'bin:not-the-mean-of-its-samples')
-                    fs.setdefault(kind, Failure(kind, 'bin %d of %d [%.4f, %.4f) holds %d samples with mean %.6g, got %r'
+                if abs(avg[b] - want) > 1e-9 * max(1.0, max(abs(v) for v in col)):
+                    kind = 'bin:not-the-mean-of-its-samples'
+                    fs.setdefault(kind, Failure(kind, 'bin %d of %d (%.4f, %.4f) holds %d samples with mean %.6g, got %r'
                                                 % (b, nb, e[b], e[b + 1], len(members), want, avg[b])))
         return list(fs.values())
 
@@ -730,6 +932,7 @@ class Binning(Stream):
                 t.append('sample-outside-all-bins')
             if any(p in out['edges'] for p in case['ip']):
                 t.append('phase-exactly-on-edge')
+                t.append('not-judged:bins-with-a-sample-on-their-edge')
             if len(set(out['digitize'])) < nb:
                 t.append('has-empty-bin')
         return t
